@@ -18,16 +18,19 @@ RULE = ("cases = (schema, datum, disable_tuple_notation, reader options): union-
         "combinations of the four options vs the model; corr:closure = read with return_named_type, write back, same bytes -- "
         "compared only where the statement's clause applies: every union value either sits under a NAMED branch (and came back as a "
         "(name, value) pair) or is a plain value that, as normalised by the reader, re-resolves to the same branch under the statement's "
-        "own rule (otherwise counted as n/a: e.g. a bytearray written as 'bytes' comes back as bytes and fits an earlier fixed); "
+        "own rule, or for which the boolean side condition closb of theorem C09_closure holds in the model (otherwise counted as n/a: e.g. "
+        "a bytearray written as 'bytes' comes back as bytes and fits an earlier fixed); "
         "non-trivial = the schema contains a union with >= 2 branches reached by the datum; distinct by (schema, datum, options)")
 TRUSTED = ["the schema reaches the model as the parsed dict fastavro.parse_schema returned (naming is C11's business)",
            "harness/unions.py: independent binary decoder (union indices) and the Python rendering of the statement's rule"]
 ASSUMPTIONS = ["recursion limit / memory are not modelled",
                "a validating record branch followed by a validating non-record branch: the statement leaves the choice open "
                "(DESIGN F13, the code takes the later non-record branch); both are accepted by the predicate, the model mirrors the code"]
-PARTIAL = ["C09_closure: only the union node is proved (C09_closure_partial: a named branch read back as (name, value) re-selects the same index); "
-           "the full statement (in a comment of props/C09.v) is evaluated on every applicable case both on the implementation (corr:closure) "
-           "and inside the model (the CL field of run_c09); C09_closure_refuted is a lemma about data OUTSIDE the statement (unnamed branch)",
+PARTIAL = ["C09_closure is proved for every well-typed wire value under the boolean side condition closb (named branches: first of their "
+           "name, tuple notation on; unnamed branches: the read-back value re-resolves to the same branch; float leaves stable under "
+           "single->double->single, decided per value -- the general fact d2s (s2d (d2s b)) = d2s b is not proved; enum index = first "
+           "occurrence; distinct map keys / field names); closb is evaluated in-model on every case and cross-checked against the model's "
+           "read-then-write (CL) and the implementation's (corr:closure)",
            "the hypotheses of C01_elab_typed on the input (wf_py, pyfloats_ok, wf_schema/wf_env, dflt/env_floats_ok) are evaluated in-model "
            "on every case; floats_ok of the elaborated value is DERIVED in Rocq (proofs/ElabFloats.v) and still printed as a cross-check"]
 
@@ -48,7 +51,10 @@ def parse_model(m):
     w, rest = rest.split(";", 1)
     flags, rest = rest.split(";R:", 1)
     r, cl = rest.rsplit(";CL:", 1)
-    out.update(A=a, W=w, flags=flags, R=r, CL=cl)
+    cb = "?"
+    if ";CB:" in cl:
+        cl, cb = cl.rsplit(";CB:", 1)
+    out.update(A=a, W=w, flags=flags, R=r, CL=cl, CB=cb)
     return out
 
 
@@ -69,7 +75,7 @@ def reaches_union(v, s, named, tn):
     return False
 
 
-def closure_impl(c, data):
+def closure_impl(c, data, force=False):
     """read with return_named_type=True, write the result back: ('same'|'diff'|'raised'|'n/a', detail).
     'n/a': the statement's clause does not cover the value (an unnamed-branch value that, once normalised by the reader,
     re-resolves to another branch under the statement's own rule)"""
@@ -81,7 +87,7 @@ def closure_impl(c, data):
         applicable = U.closure_applicable(r[1], c.parsed, c.named, tree)
     except Exception as e:
         return "raised", "harness: closure_applicable " + type(e).__name__
-    if not applicable:
+    if not applicable and not force:          # force: the model's side condition closb of C09_closure holds for this value
         return "n/a", ""
     w = CC.impl_write(c.schema_arg(), r[1], **c.wopts)
     if w[0] != "ok":
@@ -136,12 +142,22 @@ def check_case(ctx, c, m, stats):
         opts = "named_type" if c.ropts.get("return_named_type") else ("record_name" if c.ropts.get("return_record_name") else "no-reporting-option")
         ctx.violation("corr:named-read", c.to_json(), impl=rt[:1500], model=pm["R"][:1500], signature="C09:named-read:" + opts,
                       found_input=True, detail="value returned by schemaless_reader differs from the model's reader under these options")
+    # ---- the closure theorem's side condition evaluated in the model: closb => the model's closure holds (C09_closure)
+    if pm.get("CB") == "1":
+        stats["closb_true"] = stats.get("closb_true", 0) + 1
+        if not pm["CL"].startswith("same"):
+            ctx.violation("side-condition", c.to_json(), impl=None, model=m[-300:], signature="C09:closure-theorem-contradicted-in-model",
+                          found_input=False, kind="broken-obligation", detail="closb is true but the model's read-then-write differs")
     # ---- corr:closure (hints only on named branches, tuple notation enabled)
     mode = c.tag.split(":")[-1]
     if tn and mode in ("none", "type", "named"):
         ctx.count("corr:closure", key, nontrivial=nontriv)
-        res, det = closure_impl(c, w[1])
+        res, det = closure_impl(c, w[1], force=(pm.get("CB") == "1"))
         stats["closure"] += 1
+        if res == "same" and pm.get("CB") == "1":
+            stats["closure_same_and_closb"] = stats.get("closure_same_and_closb", 0) + 1
+        if res == "n/a" and pm.get("CB") == "1":
+            stats["closb_true_but_rule_na"] = stats.get("closb_true_but_rule_na", 0) + 1
         if res == "n/a":
             stats["closure_na"] = stats.get("closure_na", 0) + 1
         elif res != "same":
@@ -169,6 +185,9 @@ def run(ctx):
     ctx.notes["implementation_wrote/raised"] = [stats["written"], stats["raised"]]
     ctx.notes["closure_cases"] = stats["closure"]
     ctx.notes["closure_not_applicable"] = stats.get("closure_na", 0)
+    ctx.notes["closb_true(model side condition of C09_closure)"] = stats.get("closb_true", 0)
+    ctx.notes["closure_same_with_closb_true"] = stats.get("closure_same_and_closb", 0)
+    ctx.notes["closb_true_but_harness_rule_na"] = stats.get("closb_true_but_rule_na", 0)
     share = stats["raised"] / max(1, len(cases))
     ctx.notes["raise_share"] = round(share, 4)
     if share > 0.3:
